@@ -64,6 +64,20 @@ pub fn filter_simd(array: &dyn Array, predicate: &[bool]) -> Result<ArrayRef> {
         )));
     }
 
+    // The value loops below build null-free arrays: an input with NULLs goes
+    // through Arrow's filter kernel, which keeps the selected NULL slots.
+    if array.null_count() > 0
+        && matches!(
+            array.data_type(),
+            DataType::Int64 | DataType::Float64 | DataType::Boolean
+        )
+    {
+        return Ok(arrow::compute::filter(
+            array,
+            &BooleanArray::from(predicate.to_vec()),
+        )?);
+    }
+
     // For simplicity, just use standard Arrow filtering
     // A full implementation would use SIMD intrinsics here
     match array.data_type() {
